@@ -50,6 +50,17 @@ Theorem C16_K6_witness_is_in_the_hazard_region :
 Proof. exact k6_is_hazard. Qed.
 Print Assumptions C16_K6_witness_is_in_the_hazard_region.
 
+(* a second witness (finding K6b, also reproduced on the real daemon): a reconnect while a deleted
+   topic is still in the map and its UNREGISTER has already been served *)
+Theorem C16_K6b_witness :
+  hazard_free repo_cfg (Run init) (k6b_hist ++ k6b_suf) = false /\
+  match run repo_cfg (Run init) (k6b_hist ++ k6b_suf) with
+  | Run s => bag s = [] /\ live_keys (objs s) = [] /\ map l_regs (links s) = [[KT 0%N]]
+  | Crashed => False
+  end.
+Proof. exact k6b_witness. Qed.
+Print Assumptions C16_K6b_witness.
+
 (* The strongest true statements.  (1) Every history — any creations and deletions (two-step,
    interleaved), any fault scripts, restarts, reconfigurations, any interleaving — whose loop
    schedule stays outside the decidable region [hazard] (a REGISTER served while a conflicting
